@@ -21,7 +21,7 @@ try:
         open(path, "w").write(src.replace(m["old"], m["new"]))
         label = name
     rdir = tempfile.mkdtemp(prefix="mut_replays_", dir="/tmp")
-    env = dict(os.environ, VERIF_REPO=wt, VERIF_REPLAY_DIR=rdir)
+    env = dict(os.environ, VERIF_REPO=wt, VERIF_REPLAY_DIR=rdir, VERIF_SHRINK_S=os.environ.get("VERIF_SHRINK_S", "8"))
     r = subprocess.run(["./check", pid, "--no-evidence", *rest], cwd="/verif", capture_output=True, text=True, env=env)
     lines = [l for l in r.stdout.splitlines() if any(k in l for k in ("VIOLATION", "bucket=", "HARNESS", "tier="))]
     print(f"== {label} on {pid}: exit {r.returncode}")
